@@ -63,12 +63,12 @@ PartitionDrift(e) ==
     e.out = "ok" /\ PartitionFn(e.a, e.p) # <<e.after, e.k>>
 
 SelectDrift(e) ==
-    e.out = "ok" /\
+    e.out = "ok" /\ Len(e.a) <= 100 /\
     LET r == SelectFn(e.a, 0, Len(e.a), e.i, e.pv, 0)
     IN r.ret # e.ret \/ r.arr # e.after \/ r.used # Len(e.pv)
 
 BulkDrift(e) ==
-    e.out = "ok" /\ Len(e.keys) > 0 /\
+    e.out = "ok" /\ Len(e.keys) > 0 /\ Len(e.a) <= 100 /\
     LET r == BulkFn(e.a, e.keys, e.pv)
     IN ~r.ok \/ r.vals # e.vals \/ r.arr # e.after \/ r.used # Len(e.pv)
 
